@@ -13,7 +13,7 @@ if ! git -C "$wt" apply "$d/patch.diff"; then echo "PATCH DOES NOT APPLY: $d"; e
 caught=1
 cd /verif
 for id in $ids; do
-  out=$(VERIF_REPO="$wt" ${TIER:+VERIF_TIER=$TIER} ./check "$id" 2>&1)
+  out=$(env VERIF_REPO="$wt" ${TIER:+VERIF_TIER=$TIER} ./check "$id" 2>&1)
   echo "$out" | grep -E "^(VIOLATION|KNOWN-FINDING|C[0-9]+ (ok|FAIL))" | cut -c1-300
   echo "$out" | grep -q "^VIOLATION property=$id" && caught=0
 done
